@@ -1661,3 +1661,1044 @@ func scenD(rng *rand.Rand, p, scale int) *scenOut {
 	}
 	return out
 }
+
+// ---------------------------------------------------------------------------
+// (E) asynchronous read mode with seeks
+// ---------------------------------------------------------------------------
+
+// hop is one operation of a history: 'r' ReadPage / ReadRows(N), 's'
+// SeekToRow(N), 'w' sleep 2ms and yield (lets the background page reader block
+// on its channel), 'g' yield.
+type hop struct {
+	K byte
+	N int64
+}
+
+func opsText(ops []hop) []string {
+	out := make([]string, len(ops))
+	for i, o := range ops {
+		switch o.K {
+		case 'r':
+			if o.N > 0 {
+				out[i] = fmt.Sprintf("r%d", o.N)
+			} else {
+				out[i] = "r"
+			}
+		case 's':
+			out[i] = fmt.Sprintf("s%d", o.N)
+		default:
+			out[i] = string(o.K)
+		}
+	}
+	return out
+}
+
+type eTask struct {
+	Target  string   `json:"target"` // pages | rows | reader | generic
+	RG      int      `json:"row_group"`
+	Col     int      `json:"column"`
+	Variant int      `json:"open_variant"`
+	Kind    string   `json:"kind"`
+	Ops     []hop    `json:"-"`
+	Text    []string `json:"ops"`
+}
+
+func pageEnd(layout []int64, pos int64) int64 {
+	end := int64(0)
+	for _, n := range layout {
+		end += n
+		if pos < end {
+			return end
+		}
+	}
+	return end
+}
+
+func pageOf(layout []int64, pos int64) int {
+	end := int64(0)
+	for i, n := range layout {
+		end += n
+		if pos < end {
+			return i
+		}
+	}
+	return len(layout)
+}
+
+// genPageOps generates a history for a page reader of a chunk with the layout.
+func genPageOps(rng *rand.Rand, layout []int64, kind string, T int) []hop {
+	N := int64(0)
+	for _, n := range layout {
+		N += n
+	}
+	var ops []hop
+	pos := int64(0)
+	far := func() int64 {
+		for try := 0; try < 30; try++ {
+			k := rng.Int63n(N)
+			d := pageOf(layout, k) - pageOf(layout, pos)
+			if d < -1 || d > 2 {
+				return k
+			}
+		}
+		return rng.Int63n(N)
+	}
+	if kind == "random" {
+		for i := 0; i < T*3; i++ {
+			switch x := rng.Intn(10); {
+			case x < 5:
+				ops = append(ops, hop{K: 'r'})
+			case x < 8:
+				ops = append(ops, hop{K: 's', N: rng.Int63n(N)})
+			case x < 9:
+				ops = append(ops, hop{K: 'g'})
+			default:
+				ops = append(ops, hop{K: 's', N: 0})
+			}
+		}
+		return ops
+	}
+	for t := 0; t < T; t++ {
+		if pos >= N {
+			ops = append(ops, hop{K: 's', N: 0})
+			pos = 0
+		}
+		ops = append(ops, hop{K: 'r'})
+		pos = pageEnd(layout, pos)
+		switch kind {
+		case "storm-sleep":
+			ops = append(ops, hop{K: 'w'})
+		case "storm-yield":
+			ops = append(ops, hop{K: 'g'})
+		case "storm-mixed":
+			switch rng.Intn(3) {
+			case 0:
+				ops = append(ops, hop{K: 'w'})
+			case 1:
+				ops = append(ops, hop{K: 'g'})
+			}
+		}
+		k := far()
+		ops = append(ops, hop{K: 's', N: k})
+		pos = k
+		if rng.Intn(3) == 0 {
+			k = far()
+			ops = append(ops, hop{K: 's', N: k})
+			pos = k
+		}
+		ops = append(ops, hop{K: 'r'})
+		pos = pageEnd(layout, pos)
+	}
+	return ops
+}
+
+func genRowOps(rng *rand.Rand, N int64, T int) []hop {
+	var ops []hop
+	for i := 0; i < T; i++ {
+		switch x := rng.Intn(10); {
+		case x < 5:
+			ops = append(ops, hop{K: 'r', N: []int64{1, 3, 17, 64, 200}[rng.Intn(5)]})
+		case x < 8:
+			ops = append(ops, hop{K: 's', N: rng.Int63n(N)})
+		case x < 9:
+			ops = append(ops, hop{K: 'g'})
+		default:
+			ops = append(ops, hop{K: 'w'})
+		}
+	}
+	return ops
+}
+
+func findRow(col []string, s string) int {
+	for i, x := range col {
+		if x == s {
+			return i
+		}
+	}
+	return -1
+}
+
+func pause(k byte, waits bool) {
+	if k == 'w' && waits {
+		time.Sleep(2 * time.Millisecond)
+	}
+	runtime.Gosched()
+}
+
+// runPageOps runs a history on a page reader; outs are the canonical outputs,
+// bad is the first failure of the position predicate.
+func runPageOps(pages parquet.Pages, ref *fileRef, g, col int, ops []hop, waits bool) (outs []string, bad string) {
+	defer pages.Close()
+	want := ref.colRows[g][col]
+	N := int64(len(want))
+	pos := int64(0)
+	for i, o := range ops {
+		switch o.K {
+		case 'r':
+			pg, err := pages.ReadPage()
+			if err != nil {
+				if err == io.EOF {
+					outs = append(outs, "e")
+					if pos < N && bad == "" {
+						bad = fmt.Sprintf("op %d ReadPage at row %d of %d returned io.EOF", i, pos, N)
+					}
+				} else {
+					outs = append(outs, "E")
+					if bad == "" {
+						bad = fmt.Sprintf("op %d ReadPage at row %d of %d: %v", i, pos, N, err)
+					}
+				}
+				continue
+			}
+			prs, err := pageRowsCanon(pg)
+			parquet.Release(pg)
+			n := int64(len(prs))
+			good := err == nil && n > 0 && pos+n <= N
+			for j := 0; good && j < len(prs); j++ {
+				good = prs[j] == want[pos+int64(j)]
+			}
+			if good {
+				outs = append(outs, fmt.Sprintf("p%d.%d", pos, n))
+			} else {
+				first := -1
+				if len(prs) > 0 {
+					first = findRow(want, prs[0])
+				}
+				outs = append(outs, fmt.Sprintf("p?%d.%d", first, n))
+				if bad == "" {
+					bad = fmt.Sprintf("op %d ReadPage: the page must start at row %d, got a page of %d rows whose first row is row %d of the chunk (column %s, %d rows; err=%v)", i, pos, n, first, ref.colNames[col], N, err)
+				}
+			}
+			pos += n
+		case 's':
+			if err := pages.SeekToRow(o.N); err != nil {
+				outs = append(outs, "E")
+				if bad == "" {
+					bad = fmt.Sprintf("op %d SeekToRow(%d) of %d rows: %v", i, o.N, N, err)
+				}
+			} else {
+				outs = append(outs, "k")
+				pos = o.N
+			}
+		default:
+			pause(o.K, waits)
+		}
+	}
+	return outs, bad
+}
+
+type rowsTarget interface {
+	read(n int, pos int) (cnt int, err error, bad string)
+	seek(k int64) error
+	close()
+}
+
+type rawRows struct {
+	r    parquet.Rows
+	want []string
+	buf  []parquet.Row
+}
+
+func (t *rawRows) read(n, pos int) (int, error, string) {
+	if cap(t.buf) < n {
+		t.buf = make([]parquet.Row, n)
+	}
+	cnt, err := t.r.ReadRows(t.buf[:n])
+	if cnt < 0 || cnt > n || pos+cnt > len(t.want) {
+		return cnt, err, fmt.Sprintf("ReadRows(%d) at row %d of %d returned %d rows", n, pos, len(t.want), cnt)
+	}
+	for j := 0; j < cnt; j++ {
+		if cr := canonRow(t.buf[j]); cr != t.want[pos+j] {
+			return cnt, err, fmt.Sprintf("row %d of the batch must be row %d but is row %d of the reader's rows", j, pos+j, findRow(t.want, cr))
+		}
+	}
+	return cnt, err, ""
+}
+func (t *rawRows) seek(k int64) error { return t.r.SeekToRow(k) }
+func (t *rawRows) close()             { t.r.Close() }
+
+type typedRows struct {
+	r    *parquet.GenericReader[c15Row]
+	want []c15Row
+	buf  []c15Row
+}
+
+func sameRow(a, b *c15Row) bool {
+	if a.ID != b.ID || a.S != b.S || a.D != b.D || a.F != b.F || !bytes.Equal(a.B, b.B) || (a.Opt == nil) != (b.Opt == nil) || len(a.L) != len(b.L) {
+		return false
+	}
+	if a.Opt != nil && *a.Opt != *b.Opt {
+		return false
+	}
+	for i := range a.L {
+		if a.L[i] != b.L[i] {
+			return false
+		}
+	}
+	return true
+}
+
+func (t *typedRows) read(n, pos int) (int, error, string) {
+	if cap(t.buf) < n {
+		t.buf = make([]c15Row, n)
+	}
+	rows := t.buf[:n]
+	for i := range rows {
+		rows[i] = c15Row{}
+	}
+	cnt, err := t.r.Read(rows)
+	if cnt < 0 || cnt > n || pos+cnt > len(t.want) {
+		return cnt, err, fmt.Sprintf("Read(%d) at row %d of %d returned %d rows", n, pos, len(t.want), cnt)
+	}
+	for j := 0; j < cnt; j++ {
+		if !sameRow(&rows[j], &t.want[pos+j]) {
+			return cnt, err, fmt.Sprintf("row %d of the batch must be row %d but has id %d, s %q", j, pos+j, rows[j].ID, rows[j].S)
+		}
+	}
+	return cnt, err, ""
+}
+func (t *typedRows) seek(k int64) error { return t.r.SeekToRow(k) }
+func (t *typedRows) close()             { t.r.Close() }
+
+func runRowOps(t rowsTarget, N int, ops []hop, waits bool) (outs []string, bad string) {
+	defer t.close()
+	pos := 0
+	for i, o := range ops {
+		switch o.K {
+		case 'r':
+			cnt, err, b := t.read(int(o.N), pos)
+			eof := 0
+			if err == io.EOF {
+				eof = 1
+			}
+			if b != "" {
+				outs = append(outs, fmt.Sprintf("i?%d/%d", cnt, eof))
+				if bad == "" {
+					bad = fmt.Sprintf("op %d read of %d rows at row %d: %s", i, o.N, pos, b)
+				}
+				if cnt > 0 {
+					pos += cnt
+				}
+				continue
+			}
+			outs = append(outs, fmt.Sprintf("i%d.%d/%d", pos, cnt, eof))
+			if bad == "" {
+				switch {
+				case err != nil && err != io.EOF:
+					bad = fmt.Sprintf("op %d read of %d rows at row %d of %d: %v", i, o.N, pos, N, err)
+				case err == io.EOF && pos+cnt < N:
+					bad = fmt.Sprintf("op %d read of %d rows at row %d of %d returned %d rows and io.EOF", i, o.N, pos, N, cnt)
+				case cnt == 0 && err == nil:
+					bad = fmt.Sprintf("op %d read of %d rows at row %d of %d returned 0 rows and no error", i, o.N, pos, N)
+				}
+			}
+			pos += cnt
+		case 's':
+			if err := t.seek(o.N); err != nil {
+				outs = append(outs, "E")
+				if bad == "" {
+					bad = fmt.Sprintf("op %d SeekToRow(%d) of %d rows: %v", i, o.N, N, err)
+				}
+			} else {
+				outs = append(outs, "k")
+				pos = int(o.N)
+			}
+		default:
+			pause(o.K, waits)
+		}
+	}
+	return outs, bad
+}
+
+func runTask(f *parquet.File, ref *fileRef, t *eTask, waits bool) (outs []string, bad string) {
+	switch t.Target {
+	case "pages":
+		return runPageOps(f.RowGroups()[t.RG].ColumnChunks()[t.Col].Pages(), ref, t.RG, t.Col, t.Ops, waits)
+	case "rows":
+		return runRowOps(&rawRows{r: f.RowGroups()[t.RG].Rows(), want: ref.rows[t.RG]}, len(ref.rows[t.RG]), t.Ops, waits)
+	case "reader":
+		return runRowOps(&rawRows{r: parquet.NewReader(f), want: ref.all}, len(ref.all), t.Ops, waits)
+	default:
+		return runRowOps(&typedRows{r: parquet.NewGenericReader[c15Row](f), want: ref.typed}, len(ref.typed), t.Ops, waits)
+	}
+}
+
+const eVariants = 4
+
+func openVariant(ref *fileRef, v int, async bool, rbuf int) (*parquet.File, error) {
+	var opts []parquet.FileOption
+	mode := 0
+	switch v {
+	case 1:
+		opts = append(opts, parquet.SkipPageIndex(true))
+	case 2:
+		opts = append(opts, parquet.ReadBufferSize(rbuf))
+		mode = 2
+	case 3:
+		opts = append(opts, parquet.ReadBufferSize(rbuf), parquet.SkipPageIndex(true))
+		mode = 1
+	}
+	if async {
+		opts = append(opts, parquet.FileReadMode(parquet.ReadModeAsync))
+	} else {
+		mode = 0
+	}
+	return parquet.OpenFile(readerFor(ref.data, mode), int64(len(ref.data)), opts...)
+}
+
+func scenE(rng *rand.Rand, p, scale int) *scenOut {
+	out := &scenOut{}
+	spec := randomSpec(rng, scale)
+	spec.Rows = []int{700, 1600, 3200}[scale] + rng.Intn(200)
+	spec.RGRows = int64(spec.Rows/(2+rng.Intn(2)) + 1)
+	spec.PageBuf = 64 + rng.Intn(130)
+	ref, err := buildRef(spec)
+	if err != nil {
+		out.failf("serial-run-failed", "scenario E: %v (spec %+v)", err, spec)
+		return out
+	}
+	rbuf := 96 + rng.Intn(400)
+	G := []int{6, 14, 28}[scale] + rng.Intn(5)
+	T := []int{8, 18, 30}[scale]
+	tasks := make([]*eTask, G)
+	kinds := []string{"storm-sleep", "storm-none", "storm-yield", "storm-mixed", "random"}
+	for i := range tasks {
+		t := &eTask{Variant: rng.Intn(eVariants), RG: rng.Intn(len(ref.rgRows))}
+		switch x := i % 8; {
+		case x < 5:
+			t.Target = "pages"
+			t.Kind = kinds[x]
+			if rng.Intn(3) != 0 {
+				t.Col = 0 // the id column: dozens of small pages
+			} else {
+				t.Col = rng.Intn(ref.ncols)
+			}
+			if len(ref.pageRows[t.RG][t.Col]) < 4 {
+				t.Col = 0
+			}
+			if t.Kind != "storm-sleep" && t.Kind != "random" {
+				// without a sleep the producer is still decoding the next page when
+				// the seek arrives: a high latency reader makes that window wide
+				t.Variant = 2 + rng.Intn(2)*(-2) // 2 or 0
+			}
+			t.Ops = genPageOps(rng, ref.pageRows[t.RG][t.Col], t.Kind, T)
+		case x == 5:
+			t.Target, t.Kind = "rows", "random"
+			t.Ops = genRowOps(rng, ref.rgRows[t.RG], T)
+		case x == 6:
+			t.Target, t.Kind = "reader", "random"
+			t.Ops = genRowOps(rng, int64(len(ref.all)), T)
+		default:
+			t.Target, t.Kind = "generic", "random"
+			t.Ops = genRowOps(rng, int64(len(ref.all)), T)
+		}
+		t.Text = opsText(t.Ops)
+		tasks[i] = t
+	}
+	// serial, synchronous runs of the same histories
+	var syncFiles, asyncFiles [eVariants]*parquet.File
+	for v := 0; v < eVariants; v++ {
+		if syncFiles[v], err = openVariant(ref, v, false, rbuf); err == nil {
+			asyncFiles[v], err = openVariant(ref, v, true, rbuf)
+		}
+		if err != nil {
+			out.failf("open-failed", "scenario E: %v", err)
+			return out
+		}
+	}
+	serial := make([][]string, G)
+	for i, t := range tasks {
+		var bad string
+		serial[i], bad = runTask(syncFiles[t.Variant], ref, t, false)
+		if bad != "" {
+			out.notes = append(out.notes, fmt.Sprintf("the synchronous run of a history already fails (C08, not C15): %s; history %v", bad, t.Text))
+			serial[i] = nil
+		}
+	}
+	start := make(chan struct{})
+	grp := &group{}
+	for i := range tasks {
+		i := i
+		grp.Go(func(s *slot) {
+			t := tasks[i]
+			<-start
+			outs, bad := runTask(asyncFiles[t.Variant], ref, t, true)
+			s.out = len(outs)
+			if serial[i] == nil {
+				return
+			}
+			if bad != "" {
+				s.fails = append(s.fails, fail{Class: "async-stale-page", What: fmt.Sprintf("async read mode, %s history (%s) on %s: %s", t.Kind, variantName(t.Variant), t.Target, bad), Detail: map[string]any{"file": spec, "task": t}})
+				return
+			}
+			if a, b := strings.Join(outs, ","), strings.Join(serial[i], ","); a != b {
+				s.fails = append(s.fails, fail{Class: "async-stale-page", What: fmt.Sprintf("async read mode, %s history (%s) on %s: outputs differ from the synchronous run of the same history: %s", t.Kind, variantName(t.Variant), t.Target, firstDiff(a, b)), Detail: map[string]any{"file": spec, "task": t}})
+			}
+		})
+	}
+	close(start)
+	grp.Wait(out)
+	return out
+}
+
+func variantName(v int) string {
+	return []string{"page index loaded", "SkipPageIndex", "slow reader, small read buffer", "yielding reader, small read buffer, SkipPageIndex"}[v]
+}
+
+// ---------------------------------------------------------------------------
+// (F) shared Schema / Encoding / Codec values
+// ---------------------------------------------------------------------------
+
+type c15Item struct {
+	K string `parquet:"k"`
+	V *int64 `parquet:"v,optional"`
+}
+
+type c15Inner struct {
+	X int32     `parquet:"x"`
+	Y *float64  `parquet:"y,optional"`
+	Z []c15Item `parquet:"z"`
+}
+
+type c15F struct {
+	Name  string   `parquet:"name"`
+	Opt   *string  `parquet:"opt,optional"`
+	N     int64    `parquet:"n,delta"`
+	Tags  []string `parquet:"tags,list"`
+	Inner c15Inner `parquet:"inner"`
+	D     string   `parquet:"d,dict,snappy"`
+	G     string   `parquet:"g,zstd"`
+	H     []byte   `parquet:"h,gzip"`
+	I     float64  `parquet:"i,split"`
+}
+
+func makeF(rng *rand.Rand, i int) c15F {
+	r := c15F{Name: fmt.Sprintf("name-%d-%d", i, rng.Intn(1000)), N: int64(i)*7 + int64(rng.Intn(5)), D: fmt.Sprintf("d%d", rng.Intn(9)),
+		G: strings.Repeat("g", rng.Intn(20)) + strconv.Itoa(i), H: []byte(fmt.Sprintf("h%x", rng.Int63())), I: float64(rng.Intn(1000)) / 16}
+	if rng.Intn(3) != 0 {
+		s := fmt.Sprintf("opt%d", rng.Intn(100))
+		r.Opt = &s
+	}
+	for j := rng.Intn(4); j > 0; j-- {
+		r.Tags = append(r.Tags, fmt.Sprintf("t%d", rng.Intn(50)))
+	}
+	r.Inner.X = int32(rng.Intn(1 << 20))
+	if rng.Intn(2) == 0 {
+		y := float64(rng.Intn(100)) / 4
+		r.Inner.Y = &y
+	}
+	for j := rng.Intn(3); j > 0; j-- {
+		it := c15Item{K: fmt.Sprintf("k%d", rng.Intn(30))}
+		if rng.Intn(2) == 0 {
+			v := int64(rng.Intn(1000))
+			it.V = &v
+		}
+		r.Inner.Z = append(r.Inner.Z, it)
+	}
+	return r
+}
+
+func freshSchema() *parquet.Schema {
+	// a tag replacement (identical to the tag in the source) makes SchemaOf
+	// build a new, uncached Schema whose lazily initialised parts are untouched
+	return parquet.SchemaOf(c15F{}, parquet.StructTag(`parquet:"name"`, "Name"))
+}
+
+type fResult struct {
+	file, decon, recon, read string
+	n                        int
+	err                      string
+}
+
+func workF(schema *parquet.Schema, seed int64, nrows int, codec string) (res fResult) {
+	rng := rand.New(rand.NewSource(seed))
+	rows := make([]c15F, nrows)
+	for i := range rows {
+		rows[i] = makeF(rng, i)
+	}
+	var buf bytes.Buffer
+	w := parquet.NewGenericWriter[c15F](&buf, schema, parquet.Compression(gen.Codecs[codec]), parquet.PageBufferSize(300))
+	for i := 0; i < len(rows); {
+		k := 1 + rng.Intn(20)
+		if i+k > len(rows) {
+			k = len(rows) - i
+		}
+		if _, err := w.Write(rows[i : i+k]); err != nil {
+			res.err = "write: " + err.Error()
+			return res
+		}
+		i += k
+	}
+	if err := w.Close(); err != nil {
+		res.err = "close: " + err.Error()
+		return res
+	}
+	res.file = sha(buf.Bytes())
+	hd, hr := sha256.New(), sha256.New()
+	for i := range rows {
+		row := schema.Deconstruct(nil, &rows[i])
+		io.WriteString(hd, canonRow(row))
+		hd.Write([]byte{'\n'})
+		var back c15F
+		if err := schema.Reconstruct(&back, row); err != nil {
+			res.err = "reconstruct: " + err.Error()
+			return res
+		}
+		j, _ := json.Marshal(back)
+		hr.Write(j)
+	}
+	res.decon = hex.EncodeToString(hd.Sum(nil)[:12])
+	res.recon = hex.EncodeToString(hr.Sum(nil)[:12])
+	f, err := parquet.OpenFile(bytes.NewReader(buf.Bytes()), int64(buf.Len()))
+	if err != nil {
+		res.err = "open: " + err.Error()
+		return res
+	}
+	gr := parquet.NewGenericReader[c15F](f, schema)
+	defer gr.Close()
+	got := make([]c15F, nrows+1)
+	n := 0
+	for n < len(got) {
+		k, err := gr.Read(got[n:])
+		n += k
+		if err != nil {
+			if err != io.EOF {
+				res.err = "read: " + err.Error()
+				return res
+			}
+			break
+		}
+		if k == 0 {
+			break
+		}
+	}
+	res.n = n
+	hg := sha256.New()
+	for i := 0; i < n; i++ {
+		j, _ := json.Marshal(got[i])
+		hg.Write(j)
+	}
+	res.read = hex.EncodeToString(hg.Sum(nil)[:12])
+	return res
+}
+
+func scenF(rng *rand.Rand, p, scale int) *scenOut {
+	out := &scenOut{}
+	rounds := []int{1, 3, 6}[scale]
+	for round := 0; round < rounds; round++ {
+		G := []int{4, 12, 24}[scale] + rng.Intn(5)
+		seeds := make([]int64, G)
+		codecs := make([]string, G)
+		nrows := make([]int, G)
+		for i := range seeds {
+			seeds[i] = rng.Int63()
+			codecs[i] = allCodecs[rng.Intn(len(allCodecs))]
+			nrows[i] = 20 + rng.Intn([]int{30, 100, 200}[scale])
+		}
+		s1 := freshSchema()
+		serial := make([]fResult, G)
+		for i := range serial {
+			serial[i] = workF(s1, seeds[i], nrows[i], codecs[i])
+		}
+		s2 := freshSchema() // first used inside the race
+		if s1 == s2 {
+			out.notes = append(out.notes, "SchemaOf returned a cached schema: first use is not raced")
+		}
+		conc := make([]fResult, G)
+		start := make(chan struct{})
+		grp := &group{}
+		for i := 0; i < G; i++ {
+			i := i
+			grp.Go(func(s *slot) {
+				<-start
+				conc[i] = workF(s2, seeds[i], nrows[i], codecs[i])
+				s.out = conc[i].n
+			})
+		}
+		close(start)
+		grp.Wait(out)
+		if len(out.fails) > 0 {
+			return out
+		}
+		for i := range serial {
+			if serial[i] == conc[i] {
+				if serial[i].err != "" {
+					out.notes = append(out.notes, "shared schema: both runs fail with "+serial[i].err)
+				}
+				continue
+			}
+			cls := "rows-differ"
+			if serial[i].file != conc[i].file {
+				cls = "bytes-differ"
+			}
+			out.fails = append(out.fails, fail{Class: cls, What: fmt.Sprintf("one *Schema shared by %d goroutines (writer, Deconstruct/Reconstruct, reader; codec %s): goroutine %d got %+v, its serial run on a schema of its own %+v", G, codecs[i], i, conc[i], serial[i]),
+				Detail: map[string]any{"worker_seed": seeds[i], "rows": nrows[i], "codec": codecs[i]}})
+			return out
+		}
+	}
+	return out
+}
+
+// ---------------------------------------------------------------------------
+// (G) pages retained and handed to other goroutines
+// ---------------------------------------------------------------------------
+
+type pageMsg struct {
+	pg     parquet.Page
+	g, col int
+	pos    int
+	done   *sync.WaitGroup
+}
+
+func scenShare(rng *rand.Rand, p, scale int) *scenOut {
+	out := &scenOut{}
+	spec := randomSpec(rng, scale)
+	ref, err := buildRef(spec)
+	if err != nil {
+		out.failf("serial-run-failed", "scenario G: %v (spec %+v)", err, spec)
+		return out
+	}
+	var opts []parquet.FileOption
+	if rng.Intn(2) == 0 {
+		opts = append(opts, parquet.FileReadMode(parquet.ReadModeAsync))
+	}
+	f, err := parquet.OpenFile(bytes.NewReader(ref.data), int64(len(ref.data)), opts...)
+	if err != nil {
+		out.failf("open-failed", "scenario G: %v", err)
+		return out
+	}
+	nprod := 2 + rng.Intn([]int{2, 4, 6}[scale])
+	ncons := 2 + rng.Intn([]int{3, 6, 10}[scale])
+	ch := make(chan pageMsg, 8)
+	type chunkID struct{ g, col int }
+	work := make([][]chunkID, nprod)
+	seeds := make([]int64, nprod)
+	for i := range work {
+		seeds[i] = rng.Int63()
+		for j := []int{2, 4, 8}[scale]; j > 0; j-- {
+			work[i] = append(work[i], chunkID{rng.Intn(len(ref.rgRows)), rng.Intn(ref.ncols)})
+		}
+	}
+	prod, cons := &group{}, &group{}
+	for i := 0; i < ncons; i++ {
+		cons.Go(func(s *slot) {
+			for m := range ch {
+				func() {
+					defer m.done.Done()
+					defer func() {
+						if r := recover(); r != nil {
+							s.fails = append(s.fails, fail{Class: "panic", What: fmt.Sprintf("panic while reading a retained page: %v", r)})
+						}
+					}()
+					prs, err := pageRowsCanon(m.pg)
+					parquet.Release(m.pg)
+					want := ref.colRows[m.g][m.col]
+					if err != nil || m.pos+len(prs) > len(want) {
+						s.failf("rows-differ", "retained page of row group %d column %s at row %d: %d rows, err %v", m.g, ref.colNames[m.col], m.pos, len(prs), err)
+						return
+					}
+					for j, r := range prs {
+						if r != want[m.pos+j] {
+							s.failf("rows-differ", "retained page of row group %d column %s: row %d read by another goroutine differs from the serial read", m.g, ref.colNames[m.col], m.pos+j)
+							return
+						}
+					}
+					s.out += len(prs)
+				}()
+			}
+		})
+	}
+	for i := 0; i < nprod; i++ {
+		i := i
+		prod.Go(func(s *slot) {
+			r := rand.New(rand.NewSource(seeds[i]))
+			for _, id := range work[i] {
+				pages := f.RowGroups()[id.g].ColumnChunks()[id.col].Pages()
+				var wg sync.WaitGroup
+				pos := 0
+				for {
+					pg, err := pages.ReadPage()
+					if err != nil {
+						if err != io.EOF {
+							s.failf("rows-differ", "ReadPage of row group %d column %s: %v", id.g, ref.colNames[id.col], err)
+						}
+						break
+					}
+					n := int(pg.NumRows())
+					for k := 1 + r.Intn(3); k > 0; k-- {
+						parquet.Retain(pg)
+						wg.Add(1)
+						ch <- pageMsg{pg: pg, g: id.g, col: id.col, pos: pos, done: &wg}
+					}
+					parquet.Release(pg)
+					pos += n
+					s.out += n
+				}
+				wg.Wait() // the dictionary of the chunk belongs to the page reader
+				pages.Close()
+				if pos != len(ref.colRows[id.g][id.col]) && len(s.fails) == 0 {
+					s.failf("rows-differ", "pages of row group %d column %s end at row %d of %d", id.g, ref.colNames[id.col], pos, len(ref.colRows[id.g][id.col]))
+				}
+			}
+		})
+	}
+	prod.Wait(out)
+	close(ch)
+	cons.Wait(out)
+	return out
+}
+
+// ---------------------------------------------------------------------------
+// mixed: A + B + D + E at once
+// ---------------------------------------------------------------------------
+
+func scenMixed(rng *rand.Rand, p, scale int) *scenOut {
+	out := &scenOut{}
+	names := []string{"A-lazy", "B-independent", "D-row-groups", "E-async", "A-eager", "G-retain-release"}
+	seeds := make([]int64, len(names))
+	for i := range seeds {
+		seeds[i] = rng.Int63()
+	}
+	parts := make([]*scenOut, len(names))
+	grp := &group{}
+	for i := range names {
+		i := i
+		grp.Go(func(s *slot) {
+			parts[i] = scenarios[names[i]](rand.New(rand.NewSource(seeds[i])), p, scale)
+		})
+	}
+	top := &scenOut{}
+	grp.Wait(top)
+	out.fails = append(out.fails, top.fails...)
+	for i, part := range parts {
+		if part == nil {
+			continue
+		}
+		for j := range part.fails {
+			part.fails[j].What = "[in the mix, part " + names[i] + "] " + part.fails[j].What
+		}
+		out.absorb(part)
+	}
+	return out
+}
+
+// ---------------------------------------------------------------------------
+// race detector: a -race build of this harness with a reduced workload
+// ---------------------------------------------------------------------------
+
+type raceOutcome struct {
+	note       string
+	report     string // first data race report
+	nraces     int
+	violations []core.Violation
+	wall       time.Duration
+}
+
+func harnessDir() string {
+	if wd, err := os.Getwd(); err == nil {
+		if _, err := os.Stat(filepath.Join(wd, "c15", "main.go")); err == nil {
+			if _, err := os.Stat(filepath.Join(wd, "go.mod")); err == nil {
+				return wd
+			}
+		}
+	}
+	return "/verif/harness"
+}
+
+func raceRun(outDir string, seed int64) (res raceOutcome) {
+	t0 := time.Now()
+	defer func() {
+		res.wall = time.Since(t0)
+		if r := recover(); r != nil {
+			res.note = fmt.Sprintf("race detector run failed: %v", r)
+		}
+	}()
+	dir := harnessDir()
+	bin := filepath.Join(outDir, "race_bin")
+	args := []string{"build", "-race", "-tags", "verif"}
+	if repo := os.Getenv("VERIF_REPO"); repo != "" && filepath.Clean(repo) != "/repo" {
+		gm, err := os.ReadFile(filepath.Join(dir, "go.mod"))
+		if err != nil {
+			res.note = "race detector unavailable: " + err.Error()
+			return
+		}
+		alt := filepath.Join(outDir, "alt.mod")
+		if err := os.WriteFile(alt, []byte(strings.ReplaceAll(string(gm), "=> /repo", "=> "+repo)), 0o644); err != nil {
+			res.note = "race detector unavailable: " + err.Error()
+			return
+		}
+		if gs, err := os.ReadFile(filepath.Join(dir, "go.sum")); err == nil {
+			_ = os.WriteFile(filepath.Join(outDir, "alt.sum"), gs, 0o644)
+		}
+		args = append(args, "-modfile", alt)
+	}
+	args = append(args, "-o", bin, "./c15")
+	build := exec.Command("go", args...)
+	build.Dir = dir
+	build.Env = append(os.Environ(), "GOFLAGS=-mod=mod", "GOPROXY=off", "CGO_ENABLED=1")
+	var bout bytes.Buffer
+	build.Stdout, build.Stderr = &bout, &bout
+	if err := runWithDeadline(build, 15*time.Minute); err != nil {
+		res.note = fmt.Sprintf("race detector unavailable: go build -race failed: %v: %s", err, core.Trunc(strings.TrimSpace(bout.String()), 600))
+		return
+	}
+	childOut := filepath.Join(outDir, "race_out")
+	_ = os.RemoveAll(childOut)
+	if err := os.MkdirAll(childOut, 0o755); err != nil {
+		res.note = "race detector run: " + err.Error()
+		return
+	}
+	child := exec.Command(bin, "-tier", "quick", "-seed", strconv.FormatInt(seed, 10), "-out", childOut, "-replays", childOut)
+	child.Dir = dir
+	child.Env = append(os.Environ(), "VERIF_C15_RACE=1", "GORACE=halt_on_error=0")
+	var stderr bytes.Buffer
+	child.Stdout, child.Stderr = io.Discard, &stderr
+	runErr := runWithDeadline(child, 6*time.Minute)
+	text := stderr.String()
+	res.nraces = strings.Count(text, "WARNING: DATA RACE")
+	if i := strings.Index(text, "WARNING: DATA RACE"); i >= 0 {
+		rep := text[i:]
+		if j := strings.Index(rep[1:], "=================="); j >= 0 {
+			rep = rep[:j+1]
+		}
+		res.report = core.Trunc(rep, 6<<10)
+	}
+	b, err := os.ReadFile(filepath.Join(childOut, "result.json"))
+	if err != nil {
+		res.note = fmt.Sprintf("race build ran but left no result.json (%v; exit: %v; stderr tail: %s)", err, runErr, core.Trunc(tail(text, 1500), 1500))
+		if res.nraces == 0 {
+			res.violations = append(res.violations, core.Violation{Class: "race-child-crash", What: "the -race build of the harness ended abnormally: " + fmt.Sprint(runErr), Replay: tail(text, 3000)})
+		}
+		return
+	}
+	var cr core.Result
+	if err := json.Unmarshal(b, &cr); err == nil {
+		res.violations = append(res.violations, cr.Violations...)
+		res.note = fmt.Sprintf("race build: %d scenario instances in %.0fs, %d data race reports, %d violations", cr.Evaluations, cr.WallS, res.nraces, len(cr.Violations))
+	}
+	return
+}
+
+func tail(s string, n int) string {
+	if len(s) > n {
+		return s[len(s)-n:]
+	}
+	return s
+}
+
+func runWithDeadline(cmd *exec.Cmd, d time.Duration) error {
+	if err := cmd.Start(); err != nil {
+		return err
+	}
+	done := make(chan error, 1)
+	go func() { done <- cmd.Wait() }()
+	select {
+	case err := <-done:
+		return err
+	case <-time.After(d):
+		_ = cmd.Process.Kill()
+		<-done
+		return fmt.Errorf("killed after %v", d)
+	}
+}
+
+// ---------------------------------------------------------------------------
+// driver
+// ---------------------------------------------------------------------------
+
+func run(c *core.Ctx) {
+	c.Res.Exhaustive = false
+	c.Res.Rule = "stress exploration, not enumeration: for GOMAXPROCS in {1,2,4,16} every scenario instance draws a seed from the harness PRNG and derives everything from it (files of 500..3000 rows with a unique row id, optional, string, dictionary, byte array, list and double columns, pages of 64..256 bytes, 2-4 row groups, bloom filters, all six codecs, data pages v1/v2; gen.Case schemas for the writers; 4..36 goroutines with seeds of their own). Scenarios: A many goroutines on one File opened lazily (SkipPageIndex+SkipBloomFilters; index racers meet behind a barrier at every fresh chunk; plain, yielding and sleeping io.ReaderAt) or eagerly; B independent writers/readers/buffers; C one goroutine per ColumnWriter; D concurrently filled row groups committed in order; E async read mode histories with seeks (storms ReadPage, [sleep|yield], SeekToRow far away [twice], ReadPage); F one fresh *Schema first used inside the race; G pages retained and handed to other goroutines; mixed = A+B+D+E+G at once. Each instance first computes the serial answer of the same work and compares bytes (sha256), canonical rows, page layout, index and bloom filter contents and pointer identity. A, E, G are also run alone with the buffer event sink installed; the traces are checked against the per-buffer reference counting automaton (and the extracted model). A case = one scenario instance; non-trivial = at least 2 worker goroutines ran and the compared output is non-empty; distinct by (scenario, GOMAXPROCS, seed, scale)."
+	scale := c.N(1, 2)
+	procs := []int{1, 2, 4, 16}
+	rounds := c.N(1, 5)
+	if isRaceChild {
+		scale, procs, rounds = 0, []int{2, 4}, 1
+	}
+	var raceCh chan raceOutcome
+	if !isRaceChild && os.Getenv("VERIF_C15_NORACE") == "" {
+		// the race build and its run are independent of this process: they are
+		// started now and joined at the end
+		raceCh = make(chan raceOutcome, 1)
+		seed := c.Seed
+		outDir := c.OutDir
+		go func() { raceCh <- raceRun(outDir, seed) }()
+	}
+	seedOf := func() int64 { return c.Rng.Int63() }
+
+	// traced runs first: the process is quiescent, no earlier reader exists
+	if !isRaceChild {
+		for _, p := range procs {
+			for _, name := range []string{"A-lazy", "E-async", "G-retain-release"} {
+				runInst(c, inst{Scenario: name, P: p, Seed: seedOf(), Scale: 1, Traced: true})
+			}
+		}
+		if c.Tier == "thorough" {
+			for _, p := range procs {
+				for _, name := range []string{"A-eager", "E-async", "G-retain-release", "A-lazy"} {
+					runInst(c, inst{Scenario: name, P: p, Seed: seedOf(), Scale: 1, Traced: true})
+				}
+			}
+		}
+		c.Note("traces_validated_against_impl: %d traces, %d events, %d buffers, %d rejected", traceStats.traces, traceStats.events, traceStats.buffers, traceStats.rejected)
+		if c.HasOracle() {
+			c.Note("traces_validated_against_model: %d oracle requests (whole traces and per-buffer projections)", traceStats.oracle)
+		}
+	}
+	order := []string{"A-lazy", "A-eager", "B-independent", "C-column-writers", "D-row-groups", "E-async", "F-shared-schema", "G-retain-release", "mixed"}
+	sampled := 0
+	for round := 0; round < rounds; round++ {
+		for _, p := range procs {
+			for _, name := range order {
+				in := inst{Scenario: name, P: p, Seed: seedOf(), Scale: scale}
+				if name == "A-lazy" || name == "E-async" {
+					// the two scenarios that depend most on the schedule run twice
+					runInst(c, inst{Scenario: name, P: p, Seed: seedOf(), Scale: scale})
+				}
+				runInst(c, in)
+				if sampled < 5 && p == 4 {
+					c.Sample(in)
+					sampled++
+				}
+			}
+		}
+	}
+	c.Note("stress runs explore schedules (GOMAXPROCS %v, barriers, yielding readers); they are exploration, not proof: schedules that were not observed are not covered", procs)
+	if raceCh != nil {
+		select {
+		case r := <-raceCh:
+			if r.note != "" {
+				c.Note("%s (race build + run took %.0fs)", r.note, r.wall.Seconds())
+			}
+			if r.nraces > 0 {
+				c.Violation("data-race", fmt.Sprintf("the race detector reported %d data race(s) in the -race build of this harness (reduced workload, GOMAXPROCS 2 and 4)", r.nraces), r.report)
+			}
+			for _, v := range r.violations {
+				c.Violation(v.Class, "[-race build] "+v.What, v.Replay)
+			}
+		case <-time.After(20 * time.Minute):
+			c.Note("race detector run did not finish within its deadline")
+		}
+	}
+}
+
+func replay(c *core.Ctx, raw json.RawMessage) {
+	var in inst
+	if err := json.Unmarshal(raw, &in); err != nil || scenarios[in.Scenario] == nil {
+		c.Note("the replay does not name a scenario instance (a data race report is text): rerun the check with the recorded seed")
+		return
+	}
+	if in.P <= 0 {
+		in.P = 4
+	}
+	// schedules differ from run to run: repeat the instance a few times
+	for i := 0; i < 5; i++ {
+		runInst(c, in)
+		if len(c.Res.Violations) > 0 {
+			break
+		}
+	}
+	if in.Traced {
+		c.Note("traces_validated_against_impl: %d traces, %d events, %d buffers, %d rejected", traceStats.traces, traceStats.events, traceStats.buffers, traceStats.rejected)
+	}
+}
